@@ -36,7 +36,7 @@ CHECKS = {
          "Threads share memory only through channels (state-key pruning relies on it). 'No data race' is outside the cooperative scheduler and only touched by the auxiliary -race pass. Evidence lists scenarios whose unbounded pass was cut and the bound completed for them.", "5/C09"),
  "C10": ("mc", "stateless model checking of the shipped rtcmfilter.HandleMessages under a controlled scheduler (all interleavings of pipeline and writer goroutines per scenario, state-key pruning) + bounded-exhaustive input enumeration under the default schedule",
          "The real HandleMessages of rtcmfilter is driven through an in-package harness added by go build -overlay; stdout, record and display writers are harness-owned and every Write is a scheduling point. Streams x log configurations under every interleaving where the unbounded pass completes (else deviation bound 1-2); all <=2/3-segment menu sequences under the default schedule; display-log write errors, a stalled writer with 24 frames in flight, inputs ending in a hard read error, a quiet source with a non-zero EOF tolerance, inputs of 4095..8193 bytes. At quiescence stdout must equal the valid frames of the sequential framing, the record must be identical and the display must have exactly one entry per message.",
-         "dailylogger.New is redirected to an in-memory sink (file naming belongs to the dependency). Differential oracle: the implementation's own sequential framing filtered by the independent frame predicate.", "5/C10"),
+         "dailylogger.New is redirected to an in-memory sink (file naming belongs to the dependency). Expected output = the valid frames by the independent reference segmenter; the readable log is compared with the implementation's own display of its sequential framing.", "5/C10"),
  "C11": ("mc", "stateless model checking of the shipped HandleMessages of displayrtcm3 and rtcmfilter under a controlled scheduler, oracle evaluated at the instant the call returns",
          "Both entry points run instrumented with a harness-owned writer whose Write is a scheduling point (optionally two steps per call, optionally stalled until nothing else can run); for streams with 1-3 messages (and 24 for the stalled writer) every interleaving is explored where the unbounded pass completes and at the moment the call returns on the calling thread the writer must hold the complete expected output.",
          "Only the writer passed to the entry point is judged. Expected output comes from sequential framing by the implementation.", "5/C11"),
@@ -59,7 +59,7 @@ CHECKS = {
          "For each constellation, start times at the week start, +1 ms, +1 s, Wednesday noon and the week end -1 s/-1 ms in 4 time zones (and weeks of 2013, 2010, 2019/2020), first observations before, at and after T within the same constellation week, followed by every history of depth <=2/3 with the C06 step menu; every reported time and week start must equal the reference model. Application level: 7 host time zones x 3 observation instants x 16 date arguments through getTime + HandleMessages of displayrtcm3; every 'Time' line must show the true observation time.",
          "Same reference model as C06; depth-bounded. 'yyyy-mm-dd' is taken as midnight UTC, as the program documents.", "5/C17"),
  "C18": ("mc", "explicit-state BFS over the real queue (capacities 1..8, canonicalised states) + stateless model checking of concurrent adders/readers with preemption bounding and a brute-force linearizability oracle",
-         "Sequential: every reachable canonical state and transition for capacities 1..8 is compared with a slice model, plus 10^4-addition runs. Concurrent: the real queue with its sync import routed to the scheduler (Mutex, RWMutex with writer preference, TryLock) and yield points at every function/loop entry is run with 3 threads; every schedule with <=2/3 preemptions is explored and each call/return history must be linearizable.",
+         "Sequential: every reachable canonical state and transition for capacities 1..8 is compared with a slice model, plus 7x10^4-addition runs. Concurrent: the real queue with its sync import routed to the scheduler (Mutex, RWMutex with writer preference, TryLock) and yield points at every function/loop entry is run with 3 threads; every schedule with <=2/3 preemptions is explored and each call/return history must be linearizable.",
          "Yield-point granularity (function and loop entry, lock operations). 'No data race' only via the auxiliary -race pass.", "5/C18"),
  "C19": ("mc", "stateless model checking of the proxy's shipped relay and status code over in-memory net.Conn values under a controlled scheduler (chunking + scheduling choices, deviation bound 2; unbounded pass in the thorough tier)",
          "handleMessages, handleClientMessages, handleServerMessages, keepCircularQueueUpdated and ReportFeed.Status run instrumented (channels, goroutines, sync, time) with the package globals set as start() sets them; a status thread calls Status() (and switches the message log) at scheduler-chosen moments. Client streams (HTML-looking payloads and junk, malformed CRC-valid MSM frames, bursts of 2047..4096 bytes) x server streams x message log off/on/switched, and peers that stop reading: both directions must be relayed byte-for-byte, nothing may panic, spin or block the other direction, every report may list only a prefix of the framing of the client stream and must contain no '<'/'>' beyond the fixed template.",
